@@ -562,3 +562,40 @@ def arith_eval(t, env):
             return vs.pop()
         raise NotArith("phi")
     raise NotArith(k)
+
+
+# ------------------------------------------------------------------------------------------------ acceptance tables
+def rel_holds(rel, env):
+    """Truth of a relational fact under env, or None if it mentions anything outside env / non-arithmetic."""
+    op, a, b = rel
+    if op not in ("Lt", "Le", "Eq", "Ne"):
+        return None
+    try:
+        x, y = arith_eval(a, env), arith_eval(b, env)
+    except NotArith:
+        return None
+    return {"Lt": x < y, "Le": x <= y, "Eq": x == y, "Ne": x != y}[op]
+
+
+def acceptance_mismatch(rels, roles, grid, reference):
+    """Compare the conjunction of the branch facts that only mention the role variables with a reference predicate on a
+    grid of assignments.  roles: name -> term; grid: iterable of dicts name -> int; reference(**assignment) -> bool.
+    Returns None when they agree everywhere, else a description of the first disagreement."""
+    used = 0
+    for point in grid:
+        env = {roles[k]: v for k, v in point.items()}
+        acc = True
+        for rel in rels:
+            h = rel_holds(rel, env)
+            if h is None:
+                continue
+            used += 1
+            if not h:
+                acc = False
+                break
+        want = bool(reference(**point))
+        if acc != want:
+            return "at %s the code %s but the reference %s" % (point, "accepts" if acc else "rejects", "accepts" if want else "rejects")
+    if used == 0:
+        return "no branch fact mentions the checked quantities (guard missing?)"
+    return None
